@@ -8,10 +8,10 @@
 //	{"k":"same","l":V}          every binary operator on (v,v) with the SAME Go object on both sides
 //	{"k":"uns","l":V}           the three unary operators
 //	{"k":"ctxs","l":V}          the ten boolean contexts
-//	{"k":"spair","l":V,"r":V}   like "pair", but every operator is evaluated by a SCRIPT statement
-//	                            `c03_emit($l OP $r);` (lexer, parser, node/binary.go dispatch) with the
-//	                            operands written as literals; uncaught throw / Go panic observed at top level
-//	{"k":"stry","l":V,"r":V}    the same statements inside try { } catch (\Throwable $e) { c03_caught(); }
+//	{"k":"spair","shape":S,"l":V,"r":V}   like "pair", but every operator is evaluated by a SCRIPT
+//	                            statement (lexer, parser, constructor fast paths, node/binary.go dispatch)
+//	                            in the syntactic shape S (see scriptOps); uncaught throw / Go panic
+//	                            observed at top level
 //	{"k":"iface"}               the interface-implementation table (reflection)
 //
 // pair/same/uns answers carry "orc": the graphs of strconv.ParseFloat, strconv.FormatFloat
@@ -55,11 +55,12 @@ type V struct {
 }
 
 type Case struct {
-	K    string `json:"k"`
-	Op   string `json:"op"`
-	L    *V     `json:"l"`
-	R    *V     `json:"r"`
-	Same bool   `json:"same"`
+	K     string `json:"k"`
+	Op    string `json:"op"`
+	L     *V     `json:"l"`
+	R     *V     `json:"r"`
+	Same  bool   `json:"same"`
+	Shape string `json:"shape"`
 }
 
 type Obs struct {
@@ -248,7 +249,19 @@ func runStmt(src string) (o Obs) {
 	return Obs{Out: "val", V: unmk(emitted[0])}
 }
 
-func scriptOps(l, r *V, inTry bool) []Obs {
+// scriptOps evaluates every binary operator on (l, r) as a script statement in one syntactic
+// shape.  Each shape reaches the operator through its own parser/constructor path (variable or
+// literal operands, expression or assignment or for-condition position):
+//
+//	vv   $l = L; $r = R; c03_emit($l OP $r);
+//	try  the same inside try { } catch (\Throwable $e) { c03_caught(); }
+//	vl   $l = L; c03_emit($l OP R);              (variable OP literal: VarIntLe & co.)
+//	lv   $r = R; c03_emit(L OP $r);
+//	ll   c03_emit(L OP R);
+//	avv  $l = L; $r = R; $d = $l OP $r; c03_emit($d);     (VarFastAssign)
+//	avl  $l = L; $d = $l OP R; c03_emit($d);
+//	for  $l = L; $h = false; for (; $l OP R; ) { $h = true; break; } c03_emit($h);   (BoolTest)
+func scriptOps(l, r *V, shape string) []Obs {
 	ls, ok1 := lit(l)
 	rs, ok2 := lit(r)
 	if !ok1 || !ok2 {
@@ -256,11 +269,29 @@ func scriptOps(l, r *V, inTry bool) []Obs {
 	}
 	var res []Obs
 	for _, op := range binOps {
-		stmt := "c03_emit($l " + opSym[op] + " $r);"
-		if inTry {
-			stmt = "try { " + stmt + " } catch (\\Throwable $e) { c03_caught(); }"
+		o := " " + opSym[op] + " "
+		var src string
+		switch shape {
+		case "vv":
+			src = "$l = " + ls + "; $r = " + rs + ";\nc03_emit($l" + o + "$r);\n"
+		case "try":
+			src = "$l = " + ls + "; $r = " + rs + ";\ntry { c03_emit($l" + o + "$r); } catch (\\Throwable $e) { c03_caught(); }\n"
+		case "vl":
+			src = "$l = " + ls + ";\nc03_emit($l" + o + rs + ");\n"
+		case "lv":
+			src = "$r = " + rs + ";\nc03_emit(" + ls + o + "$r);\n"
+		case "ll":
+			src = "c03_emit(" + ls + o + rs + ");\n"
+		case "avv":
+			src = "$l = " + ls + "; $r = " + rs + ";\n$d = $l" + o + "$r;\nc03_emit($d);\n"
+		case "avl":
+			src = "$l = " + ls + ";\n$d = $l" + o + rs + ";\nc03_emit($d);\n"
+		case "for":
+			src = "$l = " + ls + "; $h = false;\nfor (; $l" + o + rs + "; ) { $h = true; break; }\nc03_emit($h);\n"
+		default:
+			return nil
 		}
-		res = append(res, runStmt("$l = "+ls+"; $r = "+rs+";\n"+stmt+"\n"))
+		res = append(res, runStmt(src))
 	}
 	return res
 }
@@ -577,10 +608,10 @@ func runCase(c Case) (o Obs) {
 			res.RL = append(res.RL, safe(func() Obs { return finish(binNode(op, mk(c.R), mk(c.L)).GetValue(ctx)) }))
 		}
 		return res
-	case "spair", "stry":
+	case "spair":
 		res := Obs{Out: "pair", Orc: oracleFor(c.L, c.R)}
-		res.LR = scriptOps(c.L, c.R, c.K == "stry")
-		res.RL = scriptOps(c.R, c.L, c.K == "stry")
+		res.LR = scriptOps(c.L, c.R, c.Shape)
+		res.RL = scriptOps(c.R, c.L, c.Shape)
 		if res.LR == nil {
 			return Obs{Out: "skip"}
 		}
